@@ -43,6 +43,7 @@ def diff_files(a, b):
 def run_variant(cr, out_name, ctx, label, **kw):
     from vf import cli_runs
 
+    cli_runs.release_logging() if kw.get("inproc", True) and not kw.get("keep_handlers") else None
     cli_runs.clear_outputs(cr)
     res = cli_runs.run_pretext_to_asm(cr, out_name, ["--write-log"], **kw)
     return res["exit_code"], snapshot(cr), res
@@ -118,9 +119,20 @@ def check_case(ctx, cr, out_name, rng, other_cr=None, subprocess_seeds=(1, 31337
     ok &= compare(ctx, ref, run_variant(cr, out_name, ctx, "cwd", cwd=str(other)), "working-directory", case)
     shutil.rmtree(other, ignore_errors=True)
     if other_cr is not None:
-        # history: A, B, A in this interpreter
-        cli_runs.run_pretext_to_asm(other_cr, "b.agp", ["--write-log"])
-        ok &= compare(ctx, ref, run_variant(cr, out_name, ctx, "history"), "earlier-runs-in-process", case)
+        # history: A, B, A in this interpreter (logging handlers left exactly as the tool leaves them)
+        cli_runs.run_pretext_to_asm(other_cr, "b.agp", ["--write-log"], keep_handlers=True)
+        got = run_variant(cr, out_name, ctx, "history", keep_handlers=True)
+        ok &= compare(ctx, ref, got, "earlier-runs-in-process", case)
+        # ... and a later invocation must not alter what this one wrote: B without a log file, B to stdout
+        for extra in (["--no-write-log"], None):
+            if extra is None:
+                cli_runs.run_pretext_to_asm(other_cr, None, [], keep_handlers=True)
+            else:
+                cli_runs.run_pretext_to_asm(other_cr, "b2.agp", extra, keep_handlers=True)
+            ctx.count("axis:later-runs-in-process")
+            after = (got[0], snapshot(cr), got[2])
+            ok &= compare(ctx, got, after, "later-runs-in-process", case)
+        cli_runs.release_logging()
     for hs in subprocess_seeds:
         got = run_variant(cr, out_name, ctx, "hash", inproc=False, hashseed=str(hs))
         ok &= compare(ctx, ref, got, "hash-seed-or-fresh-interpreter", case)
@@ -290,6 +302,7 @@ def gates(c, tier):
         "axis:stream-buffer-size": 30,
         "axis:working-directory": 25,
         "axis:earlier-runs-in-process": 35,
+        "axis:later-runs-in-process": 30,
         "axis:input-format": 15,
         "format-leg-ok": 8,
         "asm-format-ok": 8,
